@@ -150,7 +150,13 @@ impl<const BITS: usize, const LIMBS: usize> ToSql for Uint<BITS, LIMBS> {
                 let exponent = digits.len().saturating_sub(1).try_into()?;
 
                 // Trailing zeros are removed.
+                #[cfg(feature = "recmo_uint_verif")]
+                let untrimmed = digits.len();
                 trim_end_vec(&mut digits, &0);
+                #[cfg(feature = "recmo_uint_verif")]
+                if digits.len() != untrimmed {
+                    crate::verif_hooks::hit(169);
+                }
 
                 out.put_i16(digits.len().try_into()?); // Number of digits.
                 out.put_i16(exponent); // Exponent of first digit.
@@ -224,6 +230,8 @@ impl<'a, const BITS: usize, const LIMBS: usize> FromSql<'a> for Uint<BITS, LIMBS
                 let padding = 8 - rem_up(len, 8);
                 let mut raw = raw.to_owned();
                 if padding > 0 {
+                    #[cfg(feature = "recmo_uint_verif")]
+                    crate::verif_hooks::hit(176);
                     for i in (1..raw.len()).rev() {
                         raw[i] = (raw[i] >> padding) | (raw[i - 1] << (8 - padding));
                     }
@@ -287,6 +295,8 @@ impl<'a, const BITS: usize, const LIMBS: usize> FromSql<'a> for Uint<BITS, LIMBS
                     }
                     let digit = i16::from_be_bytes(raw.try_into().unwrap());
                     if !(0..10000).contains(&digit) {
+                        #[cfg(feature = "recmo_uint_verif")]
+                        crate::verif_hooks::hit(177);
                         error = true;
                         return None;
                     }
